@@ -145,9 +145,9 @@ impl GraphEngine {
                 };
 
                 // Find common neighbors (complete the triangle)
-                // Require w > v to ensure each triangle is counted exactly once
+                // Require w > max(u, v): each edge is visited once, so each triangle is counted exactly once
                 for &w in u_neighbors {
-                    if w > v && v_neighbors.contains(&w) {
+                    if w > v && w > u && v_neighbors.contains(&w) {
                         // Found triangle (u, v, w) where u < v < w
                         triangle_count += 1;
                         *node_triangles.entry(u).or_insert(0) += 1;
